@@ -18,7 +18,11 @@ event, are the other clauses:
   each role emits, and on which stream;
 * `c08_connection_frames_on_stream_zero`;
 * `c08_unregistered_stream_silent_partial` — frames for a stream that is no longer registered
-  (after a terminal exchange) trigger no emission.
+  (after a terminal exchange) trigger no emission;
+* `c08_own_terminal_unregisters`, `c08_nothing_after_own_terminal_from_peer` — for request-response
+  and request-stream in both roles the termination clause holds as far as the library decides it:
+  queueing its own terminal frame unregisters the stream, and nothing the peer sends afterwards makes
+  the endpoint emit on it again (only the application calling the finished object again could).
 SETUP-first-and-once is C16's theorem on the client model.
 -/
 namespace RSocketModel.Engine
@@ -175,6 +179,46 @@ theorem c08_unregistered_stream_silent_partial (st : State) (hc : st.closed = fa
   · simp [step, recvStep, hc, isFragmentable, h, h0, isInitiate, hna, State.emit]
   · simp [step, recvStep, hc, isFragmentable, h, h0, isInitiate, hna, State.emit]
   · simp [step, recvStep, hc, isFragmentable, h, h0, isInitiate, hna, State.emit, cacheAppend, hf, hcache]
+
+/-- **own terminal frame ⇒ the stream is closed locally** (request-response and request-stream,
+both roles): when a handler object queues its terminal frame — a requester's CANCEL, a responder's
+ERROR or complete PAYLOAD — its stream id is no longer registered afterwards -/
+theorem c08_own_terminal_unregisters (st : State) (ev : Ev) (oid : Nat) (s : Stream) (ho : st.obj oid = some s)
+    (hk : s.kind = .rrReq ∨ s.kind = .stReq ∨ s.kind = .rrResp ∨ s.kind = .stResp)
+    (hev : ev = .subCancel oid ∨ ev = .cbRRReq oid ∨ (∃ d c, ev = .pubNext oid d c) ∨ ev = .pubComplete oid ∨ ev = .pubError oid ∨
+      ev = .cbRRResp oid)
+    (g : Frame) (hg : Out.send g ∈ (step st ev).2)
+    (hterm : g.ty = .cancel ∨ g.ty = .error ∨ (g.ty = .payload ∧ g.complete = true)) :
+    (step st ev).1.isActive s.sid = false := by
+  have hg := mem_emit _ _ _ hg
+  rcases hev with rfl | rfl | ⟨d, c, rfl⟩ | rfl | rfl | rfl <;>
+    simp only [step, apiStep, ho] at hg ⊢ <;>
+    rcases hk with hk | hk | hk | hk <;> simp only [hk] at hg ⊢ <;> (repeat' split at hg) <;>
+    simp_all [isActive_finish, mkCancel, mkPayload, mkError]
+
+/-- … so nothing the peer sends on that stream afterwards makes the endpoint emit again
+(REQUEST_N, CANCEL, ERROR, whole PAYLOAD frames are dropped): after its own terminal frame the
+endpoint emits on that stream only if the application itself calls the finished object again -/
+theorem c08_nothing_after_own_terminal_from_peer (st : State) (hc : st.closed = false) (ev : Ev) (oid : Nat) (s : Stream)
+    (ho : st.obj oid = some s) (hk : s.kind = .rrReq ∨ s.kind = .stReq ∨ s.kind = .rrResp ∨ s.kind = .stResp)
+    (hev : ev = .subCancel oid ∨ ev = .cbRRReq oid ∨ (∃ d c, ev = .pubNext oid d c) ∨ ev = .pubComplete oid ∨ ev = .pubError oid ∨
+      ev = .cbRRResp oid)
+    (g : Frame) (hg : Out.send g ∈ (step st ev).2)
+    (hterm : g.ty = .cancel ∨ g.ty = .error ∨ (g.ty = .payload ∧ g.complete = true))
+    (f : Frame) (b : Behaviour) (hsid : f.sid = s.sid) (h0 : f.sid ≠ 0)
+    (hty : f.ty = .requestN ∨ f.ty = .cancel ∨ f.ty = .error ∨
+      (f.ty = .payload ∧ f.follows = false ∧ (step st ev).1.cache.find? (·.1 == f.sid) = none)) :
+    (step (step st ev).1 (.recv f b)).2 = [.drop f.sid] := by
+  have hact := c08_own_terminal_unregisters st ev oid s ho hk hev g hg hterm
+  have hcl : (step st ev).1.closed = false := by
+    rcases hev with rfl | rfl | ⟨d, c, rfl⟩ | rfl | rfl | rfl <;>
+      simp only [step, apiStep, ho] <;> (repeat' split) <;> simp_all
+  have hna : (step st ev).1.oidOf f.sid = none := by
+    rw [hsid]
+    simp only [State.isActive, List.any_eq_false] at hact
+    simp only [State.oidOf, Option.map_eq_none_iff, List.find?_eq_none]
+    exact fun p hp => by simpa using hact p hp
+  exact c08_unregistered_stream_silent_partial _ hcl f b h0 hna hty
 
 /-- **the full termination clause is false for request-channel** (known finding F16): a channel
 requester whose publisher fails emits ERROR, and a later `request(n)` of its subscriber still
